@@ -48,7 +48,24 @@ def constructs(F, bodies):
                     key = (top, kind, callee)
                     out[key] = out.get(key, 0) + 1
                     break
+        # raw integer arithmetic that can overflow (panics in debug builds, wraps in release builds):
+        # the facts are extracted with overflow checks off, so these are plain MIR BinaryOps
+        try:
+            mir = F.mir(p)
+        except AnchorLost:
+            continue
+        for b in mir["blocks"]:
+            for s in b["s"]:
+                rv = s.get("rv")
+                if rv and rv["k"] == "BinaryOp" and rv["op"] in ("Mul", "Shl", "MulUnchecked", "ShlUnchecked") and INT_RX.match(rv.get("ty", "")):
+                    if "c" in rv["a"] and "c" in rv["b"]:
+                        continue
+                    key = (top, "int-arith", rv["op"].replace("Unchecked", "") + ":" + rv["ty"])
+                    out[key] = out.get(key, 0) + 1
     return out
+
+
+INT_RX = re.compile(r"^(i8|i16|i32|i64|i128|isize|u8|u16|u32|u64|u128|usize)$")
 
 
 def table_path(name):
